@@ -26,6 +26,13 @@ def run(ctx):
         _codectab.pregen(ctx)
     run_common(ctx, "C07", modules_for("C07"), stride=2 if q else 1, l1_scripts=250 if q else 2500)
     if not getattr(ctx, "replay", None):
+        import shutil
+        from .. import heapcodec, formats     # "repeating the run later or in another process": every codec's first / partial block under three allocator fills (heap history made total)
+        tmp, env = _heap_env()
+        try:
+            heapcodec.run(ctx, "C07", env, formats.writable_formats(ctx))
+        finally:
+            shutil.rmtree(tmp, ignore_errors=True)
         from .. import blockcamp
         blockcamp.run(ctx, "C07", 160 if q else 1600)
         from .. import dwvw
@@ -48,10 +55,3 @@ def run(ctx):
         codecs20.search(ctx)
         from .. import shortio        # write () interposed (harness/shortio.c): the closed bytes do not depend on how the OS split a transfer (lean/SfModel/ShortIo.lean)
         shortio.run(ctx, "C07")
-        import shutil
-        from .. import heapcodec, formats     # "repeating the run later or in another process": every codec's first / partial block under three allocator fills (heap history made total)
-        tmp, env = _heap_env()
-        try:
-            heapcodec.run(ctx, "C07", env, formats.writable_formats(ctx))
-        finally:
-            shutil.rmtree(tmp, ignore_errors=True)
